@@ -562,6 +562,71 @@ func c01OtherSlash(q *c01Qual, width int) bool {
 	return false
 }
 
+// c01LongTokenLen: a blank-free token of at least this many characters (a URL,
+// a list of accession numbers) that does not fit on the line above leaves that
+// line at least 20 columns short of the right margin.
+const c01LongTokenLen = 21
+
+// c01ShortLines: for a quoted qualifier other than /translation laid out on two
+// or more lines, the indexes of the lines (never the last) that end 20 or more
+// columns before the right margin because the next word, a blank-free token of
+// c01LongTokenLen or more characters, does not fit.
+func c01ShortLines(q *c01Qual, width int) []int {
+	if q.Bare || q.Key == "translation" {
+		return nil
+	}
+	w := width - 21
+	lines, first := c01WrapQual(c01QualText(q), w)
+	var out []int
+	for li := 0; li+1 < len(lines); li++ {
+		if first[li+1] > 0 && w-len(lines[li]) >= c01LongTokenLen-1 {
+			out = append(out, li)
+		}
+	}
+	return out
+}
+
+func c01HasShortLine(q *c01Qual, width int, firstLine bool) bool {
+	for _, li := range c01ShortLines(q, width) {
+		if (li == 0) == firstLine {
+			return true
+		}
+	}
+	return false
+}
+
+// c01ShortLineAxis: neutralised by putting a blank in every 12th place of the
+// long tokens of the value (same length, nearly the same lines, nothing short).
+func c01ShortLineAxis(name string, firstLine bool) c01Axis {
+	return c01RecAxis(name,
+		func(r *c01Rec) bool {
+			return c01AnyQual(r, func(q *c01Qual) bool { return c01HasShortLine(q, r.Width, firstLine) })
+		},
+		func(r *c01Rec) {
+			c01EachQual(r, func(_ *c01Feat, q *c01Qual) {
+				if !c01HasShortLine(q, r.Width, firstLine) {
+					return
+				}
+				words := strings.Split(q.Value, " ")
+				for wi, w := range words {
+					if len(w) < c01LongTokenLen {
+						continue
+					}
+					b := []byte(w)
+					for k := range b {
+						if k%12 == 11 && k < len(b)-1 {
+							b[k] = ' '
+						} else if b[k] == '/' {
+							b[k] = 'x' // a piece must not start a line with '/' or end one in "//"
+						}
+					}
+					words[wi] = string(b)
+				}
+				q.Value = strings.Join(words, " ")
+			})
+		})
+}
+
 // The top-level keywords of the flat-file format. A keyword is a keyword only
 // in the keyword field (columns 1-12, starting in column 1); as the first word
 // of an indented continuation line (a wrapped qualifier value, a wrapped
@@ -803,6 +868,10 @@ func c01Axes() []c01Axis {
 					}
 				})
 			}),
+		// a wrapped value whose first line (or a later line) stops 20 or more
+		// columns short of the margin because the next word is a long token
+		c01ShortLineAxis("short-first-line-before-long-token", true),
+		c01ShortLineAxis("short-continuation-line-before-long-token", false),
 		c01RecAxis("continuation-starts-with-slash",
 			func(r *c01Rec) bool {
 				return c01AnyQual(r, func(q *c01Qual) bool { return len(c01ContSlashWords(q, r.Width)) > 0 })
@@ -1345,6 +1414,9 @@ const (
 // enumeration over the keywords and the places); the random records use it.
 const c01VContKeyword = 100
 
+// c01VLongToken has an enumeration of its own too (c01LongTokenRec).
+const c01VLongToken = 101
+
 var c01VNames = []string{"plain", "slash", "equals", "slash+equals", "wrap", "wrap+slash+equals", "continuation-slash", "empty", "bare", "translation", "translation-text"}
 
 // c01TransText is the literal text a value of the translation-text shape
@@ -1392,6 +1464,8 @@ func c01MakeQual(rng *rand.Rand, key string, shape, width int) c01Qual {
 		return q
 	case c01VContKeyword:
 		return c01KeywordQual(rng, key, width, c01Pick(rng, c01AllKeywordWords))
+	case c01VLongToken:
+		return c01LongTokenQual(rng, key, width, c01LongTokenLen+rng.Intn(37), rng.Intn(2), rng.Intn(2), rng.Intn(3))
 	case c01VTransText:
 		// a value of two or more lines with the text "/translation=" in front of
 		// one of its words: on its own, with letters after it as in a quoted
@@ -1424,6 +1498,128 @@ func c01MakeQual(rng *rand.Rand, key string, shape, width int) c01Qual {
 		}
 	}
 	return q
+}
+
+// c01LongToken: a blank-free token of n characters (n >= 21): kind 0 in the
+// manner of a URL (letters, digits and / . _ - = ? &), kind 1 a list of
+// accession numbers separated by commas. It neither starts with '/' nor ends
+// in a character other than a letter or digit.
+func c01LongToken(rng *rand.Rand, n, kind int) string {
+	if kind == 0 {
+		const head = "https://"
+		return head + c01Word(rng, c01Lower+c01Lower+c01Digits+"/._-=?&", n-len(head)-1, n-len(head)-1) + c01Word(rng, c01Lower+c01Digits, 1, 1)
+	}
+	t := ""
+	for len(t) < n {
+		if t != "" {
+			t += ","
+		}
+		t += c01Word(rng, c01Upper, 2, 2) + c01Word(rng, c01Digits, 6, 6)
+	}
+	t = t[:n]
+	if t[n-1] == ',' {
+		t = t[:n-1] + "7"
+	}
+	return t
+}
+
+// c01QualFits: no blank-free piece of the laid-out qualifier is longer than a
+// line (such a piece would be cut hard, which only /translation values are).
+func c01QualFits(q *c01Qual, width int) bool {
+	for _, t := range strings.Split(c01QualText(q), " ") {
+		if len(t) > width-21 {
+			return false
+		}
+	}
+	return true
+}
+
+// where the long-token enumeration puts the short line, and what follows the token
+var c01TokenLeads = []string{"first-line", "second-line"}
+var c01TokenTails = []string{"none", "few-words", "more-lines"}
+
+// c01LongTokenQual: a quoted qualifier whose value is wrapped at a blank in
+// front of a token of tokLen characters that does not fit on the line above,
+// which therefore stops tokLen-1 or more columns short of the margin: the
+// first line of the qualifier (lead 0) or its second (lead 1, the first line
+// full). tail: the token ends the value (0), is followed by a few words (1) or
+// by one to three further lines of words (2).
+func c01LongTokenQual(rng *rand.Rand, key string, width, tokLen, kind, lead, tail int) c01Qual {
+	w := width - 21
+	for try := 0; ; try++ {
+		q := c01Qual{Key: key}
+		words := []string{}
+		if lead == 1 { // a full first line or two before the short one
+			words = strings.Split(c01Text(rng, c01ValueAlpha, 60+rng.Intn(50)), " ")
+		}
+		tok := c01LongToken(rng, tokLen, kind)
+		// words until the token no longer fits on the current line
+		for n := 0; ; n++ {
+			q.Value = strings.Join(append(append([]string{}, words...), tok), " ")
+			lines, first := c01WrapQual(c01QualText(&q), w)
+			if n > 0 && first[len(first)-1] == len(words) && len(lines) >= 2 {
+				break // the token starts the last line
+			}
+			words = append(words, c01Word(rng, c01ValueAlpha, 1, 12))
+		}
+		words = append(words, tok)
+		switch tail {
+		case 1:
+			words = append(words, strings.Split(c01Text(rng, c01ValueAlpha, 3+rng.Intn(15)), " ")...)
+		case 2:
+			words = append(words, strings.Split(c01Text(rng, c01ValueAlpha, 60+rng.Intn(120)), " ")...)
+		}
+		q.Value = strings.Join(words, " ")
+		if c01QualFits(&q, width) && c01HasShortLine(&q, width, lead == 0) {
+			return q
+		}
+		if try > 200 {
+			panic(fmt.Sprintf("c01LongTokenQual: cannot build key=%s width=%d token=%d lead=%d tail=%d", key, width, tokLen, lead, tail))
+		}
+	}
+}
+
+// c01LongTokenRec: a 345-letter record with two features of two qualifiers
+// each, one reference and a COMMENT; the qualifier at the named place (the
+// first qualifier of the first feature, so that a qualifier, a feature and
+// ORIGIN follow it, or the last qualifier of the last feature, so that ORIGIN
+// follows it) is a long-token qualifier.
+func c01LongTokenRec(rng *rand.Rand, width, tokLen, kind, lead, tail int, last bool) c01Rec {
+	r := c01ShapeRec(rng, 345, 2, 2, c01VPlain, 1)
+	r.Width = width
+	short := func(k int) []string { return []string{c01Text(rng, c01MetaAlpha, k)} }
+	r.Refs = []c01Ref{{Authors: short(30), Title: short(40), Journal: short(30)}}
+	r.Others = []c01KV{{"COMMENT", short(40), false}}
+	fi, qi := 0, 0
+	if last {
+		fi, qi = 1, 1
+	}
+	r.Feats[fi].Quals[qi] = c01LongTokenQual(rng, r.Feats[fi].Quals[qi].Key, width, tokLen, kind, lead, tail)
+	return r
+}
+
+// c01InjectLongTokens puts, with probability 1/3 each, a blank-free token of
+// 21..57 characters in front of a random word (or behind the last one) of the
+// quoted values of r other than /translation, where the laid-out qualifier
+// still has no piece longer than a line.
+func c01InjectLongTokens(rng *rand.Rand, r *c01Rec) {
+	c01EachQual(r, func(_ *c01Feat, q *c01Qual) {
+		if q.Bare || q.Key == "translation" || rng.Intn(3) > 0 {
+			return
+		}
+		tok := c01LongToken(rng, c01LongTokenLen+rng.Intn(37), rng.Intn(2))
+		words := strings.Split(q.Value, " ")
+		if q.Value == "" {
+			words = nil
+		}
+		at := rng.Intn(len(words) + 1)
+		old := q.Value
+		out := append(append(append([]string{}, words[:at]...), tok), words[at:]...)
+		q.Value = strings.Join(out, " ")
+		if !c01QualFits(q, r.Width) {
+			q.Value = old
+		}
+	})
 }
 
 // c01PutAtLineStart inserts kw into the single-spaced words so that it starts a
@@ -2168,6 +2364,10 @@ func c01Rng(stream, i int) *rand.Rand {
 	return rand.New(rand.NewSource(verifSeed()*1000003 + int64(stream)*100000007 + int64(i)))
 }
 
+// token lengths of the long-token enumeration: 21 leaves the line above 20 or
+// more columns short, 57 (with the closing quote) fills a 58-column line
+var c01TokenLens = []int{21, 30, 45, 57}
+
 func TestVerifC01(t *testing.T) {
 	nRandRec, nRandFile := 600, 200
 	lenReps := []int{7, 12, 345, 1234, 12345, 100000}
@@ -2181,8 +2381,8 @@ func TestVerifC01(t *testing.T) {
 	shapeDom := "exhaustive over shape: sequence length {7,12,345,1234,12345,100000} (1 to 6 digits) x 1 or 2 features x qualifiers per feature {0,1,2} x value shape {" + strings.Join(c01VNames, ",") +
 		"} (translation-text = a /note or /product value of 70..252 characters, laid out on two or more lines, that contains the literal text /translation= in front of one of its words: on its own, followed by 3..8 letters, or as (see/translation=)) x location on {1,2,3} lines x final newline {yes,no}, plus lengths {1,9,10,60,61,99,100,120,999,1000,9999,10000,99999} and locus names of 1..16 characters and the 4 molecule types x 2 topologies on a plain record, plus " + strconv.Itoa(len(c01KeywordNames)) +
 		" lower-case locus names that contain a molecule-type, topology or division word (dnak_transcript, ssu_rdna_tx, mrna_7, trna_leu, rrna16s, linearized_x, circular9, genomic_dna_1, bct_syn, linear, circular, dna, mrna, est_linear_rrna, ...) x 4 molecule types x 2 topologies x all 18 divisions on a plain 345-letter record, plus keyword-like continuation lines: each of the words {" + strings.Join(c01AllKeywordWords, ",") +
-		"} as the first word of an indented continuation line (every word in every place, so each word occurs above as well as below the real line of that keyword) of {a wrapped qualifier value, DEFINITION, KEYWORDS, SOURCE, the ORGANISM lineage, COMMENT, DBLINK, and AUTHORS, TITLE, JOURNAL, REMARK of the first of two references} x wrapping at {79,80} columns on a 345-letter record with two features, two complete references, DBLINK and COMMENT; "
-	randDom := fmt.Sprintf("plus %d seeded-random records: length 1..100000 (digit count uniform), locus name 1..16 lower-case characters, DNA/mRNA/tRNA/rRNA, linear/circular, 0..40 features with 0..5 qualifiers (values over printable ASCII without the double quote, single-spaced words, up to 230 characters, translations up to 260), locations a..b, complement, join, complement(join), partial, single base, join of up to 40 ranges on several lines, 0..5 references with optional TITLE/PUBMED/REMARK, COMMENT/DBLINK/PROJECT blocks, metadata texts to 400 characters, in about one record in six wrapped qualifier values, in about one record in eight values of the translation-text shape above (up to 252 characters, under any of the 14 qualifier names), and in one record in five a keyword block or reference field with a continuation line whose first word is one of the keyword words above; every 25th random record is read through Read from a temporary file; ", nRandRec)
+		"} as the first word of an indented continuation line (every word in every place, so each word occurs above as well as below the real line of that keyword) of {a wrapped qualifier value, DEFINITION, KEYWORDS, SOURCE, the ORGANISM lineage, COMMENT, DBLINK, and AUTHORS, TITLE, JOURNAL, REMARK of the first of two references} x wrapping at {79,80} columns on a 345-letter record with two features, two complete references, DBLINK and COMMENT, plus short lines in front of long tokens: a quoted /note or /product value wrapped at a blank in front of a blank-free token of {21,30,45,57} characters (a URL of letters, digits and / . _ - = ? &, or a comma-separated accession list) that does not fit on the line above, so that this line, {the first line of the qualifier, its second line after a full first one}, stops 20 or more columns (up to 50) before the right margin, the token {ending the value, followed by a few words, followed by one to three more lines of words} x wrapping at {79,80} columns x {first qualifier of the first feature, so that another qualifier and another feature follow; last qualifier of the last feature} on a 345-letter record with two features of two qualifiers, one reference and COMMENT; "
+	randDom := fmt.Sprintf("plus %d seeded-random records: length 1..100000 (digit count uniform), locus name 1..16 lower-case characters, DNA/mRNA/tRNA/rRNA, linear/circular, 0..40 features with 0..5 qualifiers (values over printable ASCII without the double quote, single-spaced words, up to 230 characters, translations up to 260), locations a..b, complement, join, complement(join), partial, single base, join of up to 40 ranges on several lines, 0..5 references with optional TITLE/PUBMED/REMARK, COMMENT/DBLINK/PROJECT blocks, metadata texts to 400 characters, in about one record in six wrapped qualifier values, in about one record in eight values of the translation-text shape above (up to 252 characters, under any of the 14 qualifier names), in one record in five a keyword block or reference field with a continuation line whose first word is one of the keyword words above, and in one record in four a blank-free token of 21..57 characters (URL or accession list) put at a random word position into each quoted value other than /translation with probability 1/3 (where no piece of the laid-out qualifier gets longer than a line), which leaves the line above it up to 56 columns short; every 25th random record is read through Read from a temporary file; ", nRandRec)
 	runs := []*verifRun{
 		newVerifRun("C01", "io/genbank.Parse/panic-free", dom+shapeDom+randDom+"every case counts"),
 		newVerifRun("C01", "io/genbank.Parse/post/origin", dom+shapeDom+randDom+"every case counts (length >= 1)"),
@@ -2293,11 +2493,43 @@ func TestVerifC01(t *testing.T) {
 		f := c01File{Recs: []c01Rec{c01KeywordContRec(rng, 345, k.width, k.place, k.kw)}, FinalNL: true}
 		return c01EvalRecord(fmt.Sprintf("keyword-like-continuation place=%s word=%s width=%d", k.place, k.kw, k.width), &f, "")
 	})
+	// a wrapped value whose line stops short in front of a long blank-free token
+	type tokcase struct {
+		tokLen, kind, lead, tail, width int
+		last                            bool
+	}
+	var tokcases []tokcase
+	for _, tokLen := range c01TokenLens {
+		for lead := range c01TokenLeads {
+			for tail := range c01TokenTails {
+				for _, width := range []int{79, 80} {
+					for _, last := range []bool{false, true} {
+						tokcases = append(tokcases, tokcase{tokLen, len(tokcases) % 2, lead, tail, width, last})
+					}
+				}
+			}
+		}
+	}
+	c01Parallel(len(tokcases), runs, func(i int) []c01Out {
+		k := tokcases[i]
+		rng := c01Rng(7, i)
+		f := c01File{Recs: []c01Rec{c01LongTokenRec(rng, k.width, k.tokLen, k.kind, k.lead, k.tail, k.last)}, FinalNL: true}
+		place := "first-qualifier-of-first-feature"
+		if k.last {
+			place = "last-qualifier-of-last-feature"
+		}
+		return c01EvalRecord(fmt.Sprintf("long-token length=%d kind=%s short-line=%s after-token=%s width=%d place=%s", k.tokLen, []string{"url", "accession-list"}[k.kind], c01TokenLeads[k.lead], c01TokenTails[k.tail], k.width, place), &f, "")
+	})
 	// ---- single records, random content ----------------------------------
 	rtmp := t.TempDir()
 	c01Parallel(nRandRec, runs, func(i int) []c01Out {
 		rng := c01Rng(3, i)
 		f := c01File{Recs: []c01Rec{c01RandRec(rng, prof)}, FinalNL: rng.Intn(2) == 0}
+		if i%4 == 1 {
+			// one random record in four: long tokens in its quoted values (drawn from
+			// a stream of their own, so the records are otherwise the ones they were)
+			c01InjectLongTokens(c01Rng(8, i), &f.Recs[0])
+		}
 		via := ""
 		if i%25 == 7 {
 			via = filepath.Join(rtmp, "r"+strconv.Itoa(i)+".gbk")
